@@ -74,7 +74,15 @@ J gen_seq(const std::string& prop, uint64_t run_seed, const std::string& tier) {
     if (want_faults && fr.chance(2, 3)) {
       // faults attached to receiver calls: [call index, kind, k]
       J fl = J::arr(); unsigned nf = (unsigned)fr.range(1, 3);
-      for (unsigned i = 0; i < nf; i++) { J f = J::arr(); f.push(fr.below(12)); f.push(fr.chance(1, 2) ? F_NTH : F_FROM); f.push(fr.below(40)); fl.push(f); }
+      for (unsigned i = 0; i < nf; i++) {
+        J f = J::arr(); f.push(fr.below(12));
+        unsigned kind = (unsigned)fr.below(8);
+        if (kind < 3) { f.push((uint64_t)F_NTH); f.push(fr.below(40)); }
+        else if (kind < 6) { f.push((uint64_t)F_FROM); f.push(fr.below(40)); }
+        else if (kind == 6) { f.push((uint64_t)F_PROB); f.push(fr.range(50, 400)); }          // each request refused with this per-mille probability
+        else { f.push((uint64_t)F_QUOTA); f.push(fr.below(600)); }                             // memory budget: live bytes may grow by at most this much during the call
+        fl.push(f);
+      }
       c.set("faults", fl);
     }
     conns.push(c);
@@ -124,7 +132,12 @@ void exec_seq(const J& plan) {
       for (auto& f : c.faults) if (f[0] == callno) {
         // fault index modulo the number of requests the call actually makes
         uint64_t N = count_load_requests(c.buf.data() + (c.off - c.base), (size_t)avail);
-        if (N > 0) { o.fault.kind = (int)f[1]; o.fault.k = f[2] % N; }
+        if (N > 0) {
+          o.fault.kind = (int)f[1];
+          if (o.fault.kind == F_NTH || o.fault.kind == F_FROM) o.fault.k = f[2] % N;
+          else if (o.fault.kind == F_QUOTA) o.fault.k = sa_live_bytes() + f[2];
+          else { o.fault.k = f[2] % 1000; o.fault.seed = f[0] * 7919 + f[2]; }
+        }
       }
       MV tree;
       const uint8_t* win = avail ? c.buf.data() + (c.off - c.base) : nullptr;
